@@ -118,6 +118,7 @@ func (p *sparser) parse() (*SExpr, error) {
 }
 
 type LoopSpec struct {
+	Auto      bool // synthesized safety-only cut (no written invariant)
 	Key       string
 	Inv       []*SExpr
 	Decreases *SExpr
